@@ -125,6 +125,8 @@ def strategy(tier: str, pid: str = "C18") -> st.SearchStrategy[Any]:
         st.tuples(st.just("again"), st.integers(0, 3)).map(list),
         # a status blip: everything but one battery keeps working, then all work again
         st.tuples(st.just("blip"), st.integers(0, 3)).map(list),
+        # slow drift: 25 messages of one battery, SoC and capacity growing by a tiny relative step each
+        st.tuples(st.just("drift"), st.integers(0, 3), st.sampled_from([5e-7, 5e-5])).map(list),
     )
     pipeline = st.fixed_dictionaries({
         "kind": st.just("pipeline"),
@@ -246,10 +248,21 @@ def _run_pipeline(case: dict[str, Any], v: Verdict) -> None:
                 if op[0] == "blip":
                     off = op[1] % nbat
                     flat_ops += [["work", [b != off for b in range(4)]], ["work", [True] * 4], ["again", off]]
+                elif op[0] == "drift":
+                    flat_ops += [["step", op[1], op[2]]] * 25
                 else:
                     flat_ops.append(op)
             for step, op in enumerate(flat_ops):
                 where = f"step {step} {op[0]}"
+                if op[0] == "step":
+                    b = op[1] % nbat
+                    if b not in last_rec or last_rec[b]["soc"] is None or last_rec[b]["cap"] is None:
+                        continue
+                    rec = dict(last_rec[b])
+                    rec["soc"] = float(rec["soc"]) * (1.0 + op[2])
+                    rec["cap"] = float(rec["cap"]) * (1.0 + op[2])
+                    op = ["msg", b, rec, "fast"]
+                    v.labels.add("slow_drift_of_one_battery")
                 if op[0] == "again":
                     if op[1] % nbat not in last_rec:
                         continue
@@ -286,7 +299,7 @@ def _run_pipeline(case: dict[str, Any], v: Verdict) -> None:
                 else:
                     await asyncio.sleep(op[1])
                 # let the aggregator flush (first output only after WAIT_FOR_COMPONENT_DATA_SEC = 2 s)
-                await asyncio.sleep(0.2 if loop.time() > 2.5 else 2.6 - loop.time())
+                await asyncio.sleep((0.06 if len(op) > 3 else 0.2) if loop.time() > 2.5 else 2.6 - loop.time())
                 await world.settle(2)
                 expire(loop.time())
                 while True:
